@@ -263,6 +263,49 @@ def relogin_case(item):
     return part
 
 
+def late_case(item):
+    """the working directory changes between a transfer verb and the arrival of its data connection: the location
+    actually addressed (and every backend call) must be the one the verb named when it arrived"""
+    verb, cwd1, cwd2, arg = item
+    from vf.conform import step_late
+    part = report.Partial()
+    conf = Conf([M.UserSpec(None)], WTREE)
+    rig = conf.new_rig()
+    model = conf.new_model()
+    try:
+        rig.ev(0, "@connect")
+        problems = []
+        hist = ["USER anonymous", "EPSV", "CWD " + cwd1]
+        for line in hist:
+            pr, obs = conf_step(rig, model, line, conf)
+            problems += pr
+        if not problems:
+            pr, obs = step_late(rig, model, f"{verb} {arg}".rstrip(), "CWD " + cwd2, conf)
+            problems += pr
+        if not problems:
+            pr, obs = conf_step(rig, model, "PWD", conf)
+            problems += pr
+        part.evaluations += 1
+        part.traces += 1
+        part.transitions += len(hist) + 3
+        k = report.fp(["late", verb, cwd1, cwd2, arg])
+        part.states.add(k)
+        part.nontrivial.add(k)
+        part.sample({"history": hist + [f"{verb} {arg} (no data connection yet)", "CWD " + cwd2, "@data", "PWD"]}, limit=1)
+        for p in problems[:1]:
+            part.violation({"kind": p["kind"], "verb": verb, "late_data": True}, {"problem": p, "cwd1": cwd1, "cwd2": cwd2,
+                                                                                  "arg": arg}, replay={"late": list(item)})
+    finally:
+        rig.close()
+    return part
+
+
+def late_items():
+    return [(v, c1, c2, a) for v in ("MLSD", "LIST", "RETR", "STOR", "APPE")
+            for c1, c2 in (("/a", "/b"), ("/a/b", "/"), ("/", "/a"), ("/a", "/a/b"))
+            for a in (("", ".", "b", "..", "../b") if v in ("MLSD", "LIST") else ("f", "../f", "new", "./f"))]
+
+
 def wire_items(tier):
     items = []
     s2 = wire_strings(2)
@@ -278,7 +321,7 @@ def wire_items(tier):
 def run(tier, seed, t0):
     fitems, nstrings = func_items(tier)
     ritems = [(first, [x], RL_GET) for first in ("alice", "bob") for x in RL_SET]
-    parts = report.pmap(func_work, fitems) + report.pmap(wire_case, wire_items(tier)) + report.pmap(relogin_case, ritems)
+    parts = report.pmap(func_work, fitems) + report.pmap(wire_case, wire_items(tier)) + report.pmap(relogin_case, ritems) + report.pmap(late_case, late_items())
     part = report.merge_all(parts)
     bounds = {"function": {"segments": SEGS, "prefixes": PREFIXES, "max_segments": 3 if tier == "quick" else 4,
                            "path_strings": nstrings, "cwds": len(cwds()), "bases": BASES},
@@ -300,7 +343,9 @@ def run(tier, seed, t0):
 def replay(path):
     data = json.loads(open(path).read())
     rp = data["replay"]
-    if "relogin" in rp:
+    if "late" in rp:
+        part = late_case(tuple(rp["late"]))
+    elif "relogin" in rp:
         first, x, y = rp["relogin"]
         part = relogin_case((first, [x], [y]))
     elif "func" in rp:
